@@ -350,7 +350,7 @@ func runTrimLine(c Case) (res result) {
 	}
 	out := bb.String()
 	vis := visibleOf(c.Text)
-	res.nontrivial = c.Trim && len([]rune(vis)) > c.Width && strings.Contains(c.Text, "\x1b")
+	res.nontrivial = c.Trim && len([]rune(vis)) > c.Width && (strings.Contains(c.Text, "\x1b") || len(c.Text) != len([]rune(c.Text)))
 	res.outcome = out
 	if !c.Trim {
 		if out != c.Text {
@@ -587,8 +587,12 @@ func rule(prop, tier string) string {
 		}
 		fmt.Fprintf(&sb, "pass %s: ALL update sequences of length 0..%d over lines %v x texts {%s}, each followed by Close, x {%s}; ", ps.name, ps.maxLen, ps.lines, q(ps.texts), strings.Join(cs, "; "))
 	}
-	fmt.Fprintf(&sb, "every sequence is also executed on BufferedTerm (captured stdout) and VirtualTerm (Get/LineCount/WriteToOutput). pass linetrim: multiterm.WriteLineNoWrap on ALL concatenations of 0..%d tokens of {%s} x widths %v with trimming on, and width 3 with trimming off. ", trimLen(quick), q(trimToks), trimWidths)
-	sb.WriteString("states = distinct_outcomes = distinct emulator states (screen rows, cursor row/column, cursor visibility, width) reached before and after Close; transitions = updates + Close applied. non-trivial = (sequence) at least two updates of which one rewrites an already written line or moves to a lower line index; (linetrim) a text with an escape sequence that is longer than the width")
+	sb.WriteString("every sequence is also executed on BufferedTerm (captured stdout) and VirtualTerm (Get/LineCount/WriteToOutput). ")
+	for _, tp := range trimPasses(quick) {
+		fmt.Fprintf(&sb, "pass linetrim-%s: multiterm.WriteLineNoWrap on ALL concatenations of 0..%d tokens of {%s} x widths %v with trimming on, and width 3 with trimming off; ", tp.name, tp.maxLen, q(tp.toks), trimWidths)
+	}
+	sb.WriteString("the wide alphabets hold single-column non-ASCII characters of 2, 3 and 4 UTF-8 bytes and of the categories Zs (U+00A0 NO-BREAK SPACE, U+2007 FIGURE SPACE, U+202F NARROW NO-BREAK SPACE: not unicode.IsPrint, yet one column each), Ll/Lu (U+00E9, U+1E9E) and So (U+1D11E), mixed with ASCII and colour escapes; double-width glyphs and control characters are not in any alphabet. ")
+	sb.WriteString("states = distinct_outcomes = distinct emulator states (screen rows, cursor row/column, cursor visibility, width) reached before and after Close; transitions = updates + Close applied. non-trivial = (sequence) at least two updates of which one rewrites an already written line or moves to a lower line index; (linetrim) a text longer than the width that contains an escape sequence or a non-ASCII character")
 	return sb.String()
 }
 
@@ -601,7 +605,7 @@ func main() {
 		Assumptions: func(string) []string {
 			return []string{
 				"the terminal implements the emulated subset: printables, CR, LF as pure line feed (the cursor column after LF is not relied on: the writer sends CR before writing), CSI n A clamped at the top, CSI 0 K, CSI ?25 l/h, SGR sequences zero-width; unbounded rows (a terminal that scrolls is not covered)",
-				"every rune that is not part of an SGR sequence occupies one column (double-width glyphs are not covered)",
+				"every rune that is not part of an SGR sequence occupies one column: the alphabets contain only single-column characters (ASCII, U+00A0, U+00E9, U+1E9E, U+2007, U+202F, U+2724, U+1D11E; East Asian Width N/Na/A); double-width glyphs (CJK, U+3000), combining marks and control characters are not covered, their column width is terminal-dependent",
 				"right margin: a cursor resting just past the last column (pending wrap) does not wrap until the next printable, and erase-to-end-of-line in that position erases nothing; a terminal that erases the last cell there (VT100 last-column flag) is not covered",
 				"with trimming off (--notrim or not a TTY) nothing is cut and the emulator has no right margin: the sentence about cutting is checked with trimming on only",
 				"texts contain only complete SGR escape sequences (ESC [ digits ; m); a colour left switched on by a cut before its reset sequence is not a violation of the statement",
